@@ -426,12 +426,29 @@ def run_concrete_case(case, g, tier, res, on_path):
             c.prove(False, "valid token accepted", detail("a valid token is rejected"))
             return
         c.prove(len(tok.atoms) == len(ref["real"]), "atoms recovered", detail("number of atoms differs"))
+        c.prove(_atoms_match(tok, ref), "atoms recovered", detail("an atom differs from the written one"))
         for bd, (ra, ro) in zip(tok.bond_descriptors, ref["descriptors"]):
             c.prove(bd.atom_bonding_to == ra, "descriptor binds to the atom the SMILES denotes", detail("a descriptor is attached to the wrong atom"))
             c.prove(bd.bond_type == ro, "descriptor bond order is the one written", detail("a descriptor gets the wrong bond order"))
         return t
 
     explore_case(res, h, tier, on_path=on_path)
+
+
+def _atoms_match(tok, ref):
+    """every recorded atom is the element / charge RDKit reads at that position of the text"""
+    m = ref["with_dummies"]
+    if len(tok.atoms) != len(ref["real"]):
+        return False
+    for a, idx in zip(tok.atoms, ref["real"]):
+        t = a.generate_string(False)
+        am = Chem.MolFromSmiles(t if len(t) > 1 or t.isupper() else t.upper())
+        if am is None or am.GetNumAtoms() != 1:
+            return False
+        x, y = am.GetAtomWithIdx(0), m.GetAtomWithIdx(idx)
+        if x.GetAtomicNum() != y.GetAtomicNum() or x.GetFormalCharge() != y.GetFormalCharge():
+            return False
+    return True
 
 
 def run_case(case, g, tier, res):
@@ -458,6 +475,8 @@ def replay(rp, gb):
         bad = []
         if len(tok.atoms) != len(ref["real"]):
             bad.append("atom count")
+        elif not _atoms_match(tok, ref):
+            bad.append("an atom differs from the written one")
         if len(tok.bond_descriptors) != len(ref["descriptors"]):
             bad.append("descriptor count")
         for k, (bd, (ra, ro)) in enumerate(zip(tok.bond_descriptors, ref["descriptors"])):
